@@ -682,7 +682,13 @@ macro_rules! impl_graph_traits {
                     return None;
                 }
                 self.order_map.remove_node(n, &self.graph);
-                self.graph.remove_node(n)
+                // `Graph` moves its last node into the freed index
+                let last = NodeIndex::new(self.graph.node_bound() - 1);
+                let weight = self.graph.remove_node(n);
+                if last != n && self.graph.node_weight(last).is_none() {
+                    self.order_map.rename_node(last, n, &self.graph);
+                }
+                weight
             }
         }
 
